@@ -37,6 +37,10 @@ func VerifC04_Loop() {
 		for i, s := range items {
 			a[i] = s
 		}
+		if n >= 1 && zzBool("nilitem") {
+			a[0] = nil // an untyped nil element is an item like any other
+			items = append([]string{""}, items[1:]...)
+		}
 		xs = a
 	case 1:
 		xs = append([]string{}, items...)
